@@ -77,6 +77,21 @@ def splitGapShape (sc : Sc) (cl : Clip) (x y : List Nat) (o : Out) : Bool :=
       ((trailing .ins core ≥ 2 && o.ye < y.length) || (trailing .del core ≥ 2 && o.xe < x.length))
   | none => false
 
+/-- Known defect shape (known/C02.json C02-row0-pointer): row 0 of the last column lies outside the band, `Sn[0]` keeps its
+preload `yclip_prefix` while the loop over row 0 records "delete all of y" at `(0, n)`; the last column continues from
+`Sn[0]` with insertions.  Recognised as: custom mode (clip operations reported), the operations start with exactly `|y|`
+deletions followed by `Yclip(0)` and an insertion, all of y is inside the alignment, and
+recomputed − reported = (gap_open + |y|·gap_extend) − yclip_prefix > 0. -/
+def row0PointerShape (sc : Sc) (cl : Clip) (x y : List Nat) (o : Out) : Bool :=
+  match score sc .none (slice x o.xs o.xe) (slice y o.ys o.ye) (coreOps o.ops) with
+  | some c =>
+    let rec' := c + clipPen cl x.length y.length o.xs o.xe o.ys o.ye
+    let n := y.length
+    n > 0 && o.ys == 0 && o.ye == n && rec' > o.score &&
+      rec' - o.score == sc.go + sc.ge * (n : Int) - cl.yp &&
+      o.ops.take n == List.replicate n (.core .del) && (o.ops.drop n).take 2 == [.yclip 0, .core .ins]
+  | none => false
+
 /-- `a.b+a.b+…` (`-` = empty) -/
 def parsePairs (s : String) : Option (List (Nat × Nat)) :=
   parseList (fun t => match t.splitOn "." with
@@ -104,7 +119,9 @@ def bandTags (cl : Clip) (k w : Nat) (x y : List Nat) (rest : List String) : Opt
         let emptyCol := b.ranges.any (fun p => p.1 ≥ p.2)
         some ((if same then ["band=impl"] else ["drift-band"])
           ++ (if ms.isEmpty then [] else if emptyCol then ["band-has-empty-column"] else ["band-all-columns"])
-          ++ (if Model.Band.numCells b = (x.length + 1) * (y.length + 1) then ["band=matrix"] else []), some b)
+          ++ (if Model.Band.numCells b = (x.length + 1) * (y.length + 1) then ["band=matrix"] else [])
+          -- the shape invariant of `Model/Band.lean`, evaluated on the band the *code* holds (coverage, never a violation)
+          ++ (if decide (Model.Band.Connected ranges) then ["band-connected"] else ["band-not-connected"]), some b)
       | _, _, _ => none
     | _, _, _ => none
 
@@ -128,7 +145,9 @@ def checkCall (sc : Sc) (cl : Clip) (k w : Nat) (idx : Nat) (c : Call) (outS : S
       else if full && overBudget x y then .error ("reject " ++ pre ++ "band-over-budget-but-no-sentinel")
       else if !acceptValid sc cl' filt x y o then
         .error ("reject " ++ pre ++ (if IsAln x y o.toAln ∧ ClipRule filt x y o ∧ splitGapShape sc cl' x y o
-          then "split-gap-" else "") ++ whyInvalid sc cl' filt x y o)
+          then "split-gap-"
+          else if !filt ∧ IsAln x y o.toAln ∧ ClipRule filt x y o ∧ row0PointerShape sc cl' x y o then "row0-pointer-"
+          else "") ++ whyInvalid sc cl' filt x y o)
       else if exact && o.score ≠ opt sc cl' x y then
         .error ("diff " ++ pre ++ "fullband-optimum:" ++ toString (opt sc cl' x y) ++ "-reported:" ++ toString o.score)
       else if !acceptBanded sc cl' filt x y full exact o then .error ("reject " ++ pre ++ "acceptBanded-false")
